@@ -37,9 +37,9 @@ class PList:
 
 class Seq:
     """list of symbolic length n whose element i is fn(i)  (comprehension over range(n), [x]*n, external symbolic list)"""
-    __slots__ = ("n", "fn", "owner", "tag", "conds")
+    __slots__ = ("n", "fn", "owner", "tag", "conds", "parts")
 
-    def __init__(s, n, fn, owner='fresh', tag=None): s.n = n; s.fn = fn; s.owner = owner; s.tag = tag; s.conds = None
+    def __init__(s, n, fn, owner='fresh', tag=None): s.n = n; s.fn = fn; s.owner = owner; s.tag = tag; s.conds = None; s.parts = None
     def __repr__(s): return "Seq(len=%s)" % (s.n,)
 
 
@@ -1005,11 +1005,36 @@ def offset(t, k='k'):
     return None
 
 
+def select(c, a, b):
+    """value-level if-then-else for same-shaped values (numeric leaves merged by ite)"""
+    if isinstance(a, T) or isinstance(b, T) or (is_num(a) and is_num(b)):
+        return ite(c, lift(a), lift(b))
+    if isinstance(a, Obj) and isinstance(b, Obj) and a.cls == b.cls and set(a.f) == set(b.f):
+        return Obj(a.cls, {k: select(c, a.f[k], b.f[k]) for k in a.f})
+    if isinstance(a, tuple) and isinstance(b, tuple) and len(a) == len(b): return tuple(select(c, x, y) for x, y in zip(a, b))
+    if type(a) is type(b) and a == b: return a
+    raise Unsupported("cannot merge differently shaped list elements %r / %r" % (a, b))
+
+
 def concat(a, b):
-    la = lift(len(a.items)) if isinstance(a, PList) else a.n
-    lb = lift(len(b.items)) if isinstance(b, PList) else b.n
-    fa = (lambda i, a=a: Opaque("concat element")) if isinstance(a, PList) else a.fn
-    raise Unsupported("concatenation of symbolic-length lists")
+    """a + b for lists of which at least one has symbolic length: element i is a[i] for i < len(a), else b[i - len(a)]"""
+    if isinstance(a, PList) and not a.items: return Seq(b.n, b.fn, tag=b.tag) if isinstance(b, Seq) else PList(b.items)
+    if isinstance(b, PList) and not b.items: return Seq(a.n, a.fn, tag=a.tag) if isinstance(a, Seq) else PList(a.items)
+    def as_seq(x):
+        if isinstance(x, Seq): return x
+        items = list(x.items)
+        def fn(i, items=items):
+            i = lift(i)
+            if i.op == 'c': return items[int(i.a[0])]
+            v = items[-1]
+            for k in range(len(items) - 2, -1, -1): v = select(cmp('==', i, k), items[k], v)
+            return v
+        return Seq(lift(len(items)), fn)
+    sa, sb = as_seq(a), as_seq(b)
+    na = sa.n
+    q = Seq(na + sb.n, lambda i: select(cmp('<', lift(i), na), sa.fn(lift(i)), sb.fn(lift(i) - na)))
+    q.parts = (sa, sb)
+    return q
 
 
 def subst_value(v, m):
